@@ -15,6 +15,7 @@ import (
 	"github.com/Syuparn/pangaea/evaluator"
 	"github.com/Syuparn/pangaea/object"
 	"github.com/Syuparn/pangaea/parser"
+	seam "github.com/Syuparn/pangaea/verifseam"
 )
 
 // ErrKinds the simulated callee can raise (StopIterErr deliberately last: list
@@ -198,6 +199,10 @@ func Parse(src string) (prog *ast.Program, err error) {
 	return parser.Parse(parser.NewReader(strings.NewReader(src), "<sim>"))
 }
 
+// DefaultFuel bounds one evaluation (entries of evaluator.Eval) unless the caller has set
+// its own budget. The generated workloads need a few thousand.
+const DefaultFuel = 3000000
+
 // Result of one evaluation.
 type Result struct {
 	Obj      object.PanObject
@@ -230,6 +235,12 @@ func (it *Interp) RunIn(prog ast.Node, c *Callee, env *object.Env) (res Result) 
 	it.Out.W = &out
 	it.Out.mu.Unlock()
 	res.Scope = env
+	if !seam.FuelOn() && !seam.Active() {
+		// bounded liveness: an evaluation that needs more than DefaultFuel entries of
+		// evaluator.Eval is cut off (reported as the host panic "fuel exhausted")
+		seam.SetFuel(DefaultFuel)
+		defer seam.SetFuel(0)
+	}
 	defer func() {
 		if r := recover(); r != nil {
 			res.Panic = fmt.Sprint(r)
